@@ -19,6 +19,12 @@ func (x *Exec) evalWitness(env *SpecEnv, e Expr) (v Val) {
 				panic(r)
 			}
 			x.lookupAtEnd = true
+			if m := unknownIdentRe.FindStringSubmatch(string(te)); m != nil {
+				if x.unresolvedHints == nil {
+					x.unresolvedHints = map[string]bool{}
+				}
+				x.unresolvedHints[m[1]] = true
+			}
 			v = x.freshVal("witness?", types.Typ[types.Int], env.cur)
 		}
 	}()
